@@ -245,6 +245,27 @@ fn vc16_attrs_decode() {
     leak(d);
 }
 
+// @h name=vc16_decode_trailing_empty tier=quick timeout=420
+// @fn decode_stun_message
+// @bound 32-byte Binding request: PRIORITY (4 symbolic bytes) followed by a zero-length attribute that ends exactly at the end of the message: USE-CANDIDATE, or DATA with length 0 (symbolic choice); symbolic transaction id
+// @oracle a zero-length attribute in last position is decoded like anywhere else: use_candidate is set / data is Some(empty) (RFC 5389 §15: attributes may have length 0; seeded change C16-A: attribute loop guard `offset + 4 < len`)
+#[kani::proof]
+#[kani::unwind(8)]
+fn vc16_decode_trailing_empty() {
+    let mut b: [u8; 32] = kani::any();
+    b[0] = 0x00; b[1] = 0x01; b[2] = 0; b[3] = 12;
+    b[4] = 0x21; b[5] = 0x12; b[6] = 0xA4; b[7] = 0x42;
+    b[20] = 0; b[21] = 0x24; b[22] = 0; b[23] = 4;
+    let uc: bool = kani::any();
+    b[28] = 0; b[29] = if uc { 0x25 } else { 0x13 }; b[30] = 0; b[31] = 0;
+    let d = match decode_stun_message(&b) { Ok(d) => d, Err(e) => { leak(e); assert!(false, "well-formed message rejected"); return; } };
+    assert!(d.class == StunClass::Request && d.method == StunMethod::Binding);
+    if uc { assert!(d.use_candidate, "trailing USE-CANDIDATE not decoded"); }
+    else { assert!(!d.use_candidate); match &d.data { Some(v) => assert!(v.is_empty()), None => assert!(false, "trailing empty DATA not decoded") } }
+    kani::cover!(uc); kani::cover!(!uc);
+    leak(d);
+}
+
 // @h name=vc16_integrity_fingerprint tier=quick timeout=420
 // @fn encode_stun_message, write_length_field, update_length_field, append_raw_attribute
 // @stub hmac_sha1 -> ideal MAC model recording its input; crc32 -> ideal checksum model recording its input
